@@ -972,18 +972,33 @@ func (w *world) stepExecuteRacingTimer(instancePool []string) bool {
 		return true
 	}
 	w.m.observe()
+	// The tick may also be handled late: the clock moves on (nothing else
+	// becomes due) before the goroutine that waits for the timer gets to
+	// see the tick, which still carries the instant the timer fired.
+	late := rapid.SampledFrom([]time.Duration{0, 0, time.Nanosecond, time.Second, 20 * time.Second}).Draw(w.rt, "tickHandledLate")
+	if late > 0 && w.clk.noTimerDueBy(dl.Add(late), id) {
+		w.m.lateTick = true
+		w.clk.jumpTo(dl.Add(late))
+		rec.Arg += fmt.Sprintf("; the tick is handled %s late", late)
+	} else {
+		late = 0
+	}
 	w.injectionRan = false
-	w.injection = func() { w.clk.deliver(id) }
+	w.injection = func() { w.clk.deliverStamped(id) }
 	w.stepExecute(instancePool)
 	if !w.injectionRan {
 		// The Execute call never generated an operation name: deliver
 		// the tick the ordinary way.
 		w.injection = nil
-		w.clk.deliver(id)
+		w.clk.deliverStamped(id)
 		rec.Out = "not raced"
 	} else {
 		rec.Out = "raced"
 		w.m.label("timer_delivered_under_lock")
+	}
+	w.m.lateTick = false
+	if late > 0 {
+		w.m.label("tick_handled_late")
 	}
 	w.quiesce()
 	return true
